@@ -989,7 +989,7 @@ typedef struct shared {
 	long         outcnt[MAXOUT];
 	int          nsig;
 	sigrec       sig[MAXSIG];
-	int          pool_overflow, cp_overflow, diverged, flaky;
+	int          pool_overflow, cp_overflow, diverged, flaky, slow;
 	int          nsample;
 	char         sample[8][400];
 } shared;
@@ -1016,6 +1016,8 @@ static struct {
 	int    nnotes;
 	char   notes[32][2][400];
 	int    machinery_errors;
+	char   unrep[16][260];
+	int    nunrep;
 	char  *scen_json;
 	int    scen_len, scen_cap;
 } G;
@@ -1279,6 +1281,14 @@ record_sig(const char *sig, const char *msg, const char *replay, int ndev,
 	for (int i = 0; i < S->nsig; i++)
 		if (strcmp(S->sig[i].sig, sig) == 0) {
 			S->sig[i].count++;
+			if (!S->sig[i].reproduced && reproduced) {
+				// an earlier occurrence did not replay, this one did
+				sigrec *r = &S->sig[i];
+				snprintf(r->msg, sizeof(r->msg), "%s", msg);
+				snprintf(r->replay, sizeof(r->replay), "%s", replay);
+				r->ndev       = ndev;
+				r->reproduced = 1;
+			}
 			return;
 		}
 	if (S->nsig >= MAXSIG)
@@ -1297,7 +1307,7 @@ sig_known(const char *sig)
 {
 	for (int i = 0; i < S->nsig; i++)
 		if (strcmp(S->sig[i].sig, sig) == 0)
-			return 1;
+			return S->sig[i].reproduced || S->sig[i].count >= 4;
 	return 0;
 }
 
@@ -1347,6 +1357,16 @@ worker(const vx_cfg *cfg, int wi)
 		sunlock();
 
 		int rc = run_one(cfg, &cur, w, errfd, cfg->watchdog_s);
+		if (rc == 5) {
+			// the real-time watchdog says nothing about the library when the
+			// machine is loaded: run the same execution again with three times
+			// the limit and use that run (its choice points are complete).
+			// Only an execution that exceeds the long limit too is a hang.
+			slock();
+			S->slow++;
+			sunlock();
+			rc = run_one(cfg, &cur, w, errfd, cfg->watchdog_s * 3);
+		}
 		int ncp = w->ncp;
 
 		char sig[200] = "", msg[600] = "", rpath[256] = "";
@@ -1421,11 +1441,17 @@ worker(const vx_cfg *cfg, int wi)
 				    PROT_READ | PROT_WRITE,
 				    MAP_SHARED | MAP_ANONYMOUS, -1, 0);
 				int efd2 = memfd_create("vserr2", 0);
-				int rc2  = run_one(
-                                    cfg, &cur, ws, efd2, cfg->watchdog_s * 3);
-				int same = (rc2 == rc);
-				if (same && rc == 1)
-					same = strcmp(ws->clause, w->clause) == 0;
+				int rc2 = 0, same = 0;
+				// the same choice list must fail the same way when run
+				// alone; up to three attempts (loopback TCP scenarios see
+				// the kernel's delivery timing on a loaded machine)
+				for (int attempt = 0; attempt < 3 && !same; attempt++) {
+					rc2 = run_one(cfg, &cur, ws, efd2,
+					    cfg->watchdog_s * 3);
+					same = (rc2 == rc);
+					if (same && rc == 1)
+						same = strcmp(ws->clause, w->clause) == 0;
+				}
 				munmap(ws, sizeof(wres));
 				close(efd2);
 				free(w2);
@@ -1788,6 +1814,7 @@ vx_explore(const vx_cfg *cfg0, vx_stats *out)
 	st.switches   = S->switches;
 	st.nontrivial = S->nontrivial;
 	st.hangs      = S->hangs;
+	int slow_retried = S->slow;
 	st.outcomes   = S->nout;
 	st.maxdepth   = S->maxdepth;
 	st.io_calls   = S->io_calls;
@@ -1809,8 +1836,17 @@ vx_explore(const vx_cfg *cfg0, vx_stats *out)
 		st.exhaustive = !S->pool_overflow && !S->cp_overflow;
 	st.determinism_ok = G.determinism_ok;
 	st.violations     = S->nsig;
-	if (S->diverged || S->flaky)
-		G.machinery_errors += S->diverged + S->flaky;
+	if (S->diverged)
+		G.machinery_errors += S->diverged;
+	// failures that never failed again when their choice list was run alone
+	// (three attempts each) are not reported as violations: they are listed
+	// in the result as unreproduced observations
+	for (int i = 0; i < S->nsig; i++)
+		if (!S->sig[i].reproduced && G.nunrep < 16) {
+			snprintf(G.unrep[G.nunrep], sizeof(G.unrep[0]), "%s/%s x%ld",
+			    cfg.scenario, S->sig[i].sig, S->sig[i].count);
+			G.nunrep++;
+		}
 
 	// merge into global
 	G.executions += st.executions;
@@ -1870,11 +1906,11 @@ vx_explore(const vx_cfg *cfg0, vx_stats *out)
 		    "\"total_dev\":%d,\"executions_per_deviation_level\":[%s],"
 		    "\"completed_level\":%d,\"exhaustive\":%s,"
 		    "\"distinct_outcomes\":%d,\"outcomes\":{%s},\"maxdepth\":%d,"
-		    "\"hangs\":%ld,\"wall_s\":%.2f}",
+		    "\"hangs\":%ld,\"slow_retried\":%d,\"wall_s\":%.2f}",
 		    G.scen_len ? "," : "", cfg.scenario, st.executions, st.nodes,
 		    st.steps, st.switches, bb, cfg.total, lv, st.completed_level,
 		    st.exhaustive ? "true" : "false", st.outcomes, ob,
-		    st.maxdepth, st.hangs, st.wall_s);
+		    st.maxdepth, st.hangs, slow_retried, st.wall_s);
 	}
 	fprintf(stderr,
 	    "[vs] %s/%s: exec=%ld nodes=%ld steps=%ld outcomes=%d level=%d "
@@ -1969,6 +2005,15 @@ vx_finish(void)
 	    G.exhaustive ? "true" : "false",
 	    G.determinism_ok ? "true" : "false");
 	fprintf(f, "\"machinery_errors\":%d,", G.machinery_errors);
+	fprintf(f, "\"unreproduced\":[");
+	for (int i = 0; i < G.nunrep; i++) {
+		fprintf(f, "%s\"", i ? "," : "");
+		for (const char *q = G.unrep[i]; *q; q++)
+			if (*q != '"' && *q != '\\' && (unsigned char) *q >= 32)
+				fputc(*q, f);
+		fprintf(f, "\"");
+	}
+	fprintf(f, "],");
 	fprintf(f, "\"scenario_stats\":[%s],", G.scen_json ? G.scen_json : "");
 	fprintf(f, "\"samples\":[");
 	for (int i = 0; i < G.nsamples; i++) {
